@@ -306,6 +306,7 @@ def check_property(prop: str, tier: str, seed: int, write_baseline=False, only_u
             if not r["error"]
         ],
         "solver_ms": solver_ms,
+        "slowest_obligations": sorted(((o["ms"], o["id"]) for r in results if not r["error"] for o in r["obligations"]), reverse=True)[:5],
         "undecided": undecided,
         "known_findings_hit": [k["key"] for k in known_hits],
         "samples": samples or [{"note": "no proof obligations for this property; see bounded"}],
